@@ -1402,7 +1402,18 @@ func syncHistory(rng *rand.Rand, out *Out, first bool) (reproduced bool) {
 			if rng.Intn(3) == 0 {
 				w.fillPool()
 			}
-			w.slotDelivery(src)
+			from := src
+			if rng.Intn(2) == 0 {
+				// the cheap longer side chain: the branch the receiver is not on, when it is not longer than the receiver's
+				for _, c := range []*Node{src, other} {
+					lf, cf, fp := FrontierOf(w.l.Ch).Height, FrontierOf(c.Ch).Height, forkPoint(w.l.Ch, c.Ch)
+					if fp < lf && cf <= lf && lf-cf < 7 && lf-fp <= 30 {
+						from = c
+						break
+					}
+				}
+			}
+			w.slotDelivery(from)
 		default:
 			w.randomDelivery(src)
 		}
